@@ -23,6 +23,8 @@
 #include <booster/log.h>
 #include "hmac_encryptor.h"
 #include "aes_encryptor.h"
+#include <signal.h>
+#include <unistd.h>
 #include <map>
 #include <memory>
 #include <iostream>
@@ -415,8 +417,15 @@ static void refusals()
 	}
 }
 
+static void on_signal(int sig)
+{
+	char b[64]; snprintf(b,sizeof(b),"signal %d",sig);
+	tr.line(vt::J().s("e","Died").s("what",b).s("mut","signal").str()); tr.close(); _exit(0);
+}
+
 int main(int argc,char **argv)
 {
+	signal(SIGSEGV,on_signal); signal(SIGABRT,on_signal); signal(SIGBUS,on_signal); signal(SIGFPE,on_signal);
 	if(argc<3) { fprintf(stderr,"usage: cookie_drv shard nshards\n"); return 2; }
 	long shard=atol(argv[1]),nsh=atol(argv[2]);
 	bool thorough = std::string(getenv("VERIF_TIER")?getenv("VERIF_TIER"):"quick")=="thorough";
